@@ -24,6 +24,8 @@ Decides:
  H hints put back complete(..)/complete_shell(..) put every stashed hint that is not a metavariable back through push_comp.
  P positional-only  the flag handed to Complete::complete is true exactly when the item BEFORE the word being completed is a PosWord; neither the
                    spelling nor the kind of the word itself takes part.
+ W every swallow   every way from the inner failure to Ok(None) in parse_option (also the `catch` way) hands the hints of the failed attempt over.
+ E offered anyway  take_argument pushes its name hint on every way out of the "name is not on the line" arm, also when the value then comes from the environment.
 Does not decide: the candidate set for a given prefix (depth / prefix filtering is value-level)."""
 import re
 from core import *
